@@ -582,6 +582,22 @@ theorem inv_pushLoop (c : Ctl) (rs : List Nat) (fuel : Nat) (hi : Inv c) : Inv (
               show Inv (pushLoop c3 _ n).1
               exact ih _ _ h2
 
+theorem inv_touchRunning (c : Ctl) (hi : Inv c) : Inv (touchRunning c) := by
+  unfold touchRunning
+  suffices H : ∀ (l : List (Nat × Nat)) (acc : Ctl), Inv acc →
+      Inv (l.foldl (fun c x => match c.getOp x.2 with | some o => c.setOp o.checkTimeout.1 | none => c) acc) from
+    H c.running c hi
+  intro l
+  induction l with
+  | nil => intro acc h; exact h
+  | cons x rest ih =>
+    intro acc h
+    simp only [List.foldl_cons]
+    apply ih
+    split
+    · next o ho => exact inv_setOp acc x.2 o _ h ho (rel_checkTimeout o) (noStart_checkTimeout o)
+    · exact h
+
 theorem inv_stepEv (c : Ctl) (e : Ev) (hi : Inv c) : Inv (stepEv c e).1 := by
   cases e with
   | putRegion v => exact inv_of_eq hi rfl rfl
@@ -631,6 +647,7 @@ theorem inv_stepEv (c : Ctl) (e : Ev) (hi : Inv c) : Inv (stepEv c e).1 := by
       · exact hi
     · exact hi
   | sleep ms => exact inv_of_eq hi rfl rfl
+  | influence => exact inv_touchRunning c hi
 
 theorem inv_runEv_placeholder : True := trivial
 
